@@ -394,6 +394,16 @@ UNITS['U30k'] = dict(
                  'usize == u64 (64-bit target) for the `as u64` / `as usize` casts of section numbers and lengths'],
     not_covered=['data sections, column name / length / range', 'the WAL segment and catalogue schemas', 'serialize_packed / read_message'])
 
+UNITS['U31k'] = dict(
+    kind='kani', crate='kani/U31', timeout_s=600, mem_gb=8, jobs=3,
+    title='query_plan.rs try_bitpacking: width of a grouping-key field (nested fn bits, slice) and accounting of the packed key (slice): every value fits its field, fields do not overlap, the key stays within 63 bits or bit packing is abandoned (complete: every i64)',
+    harnesses=[dict(name='proofs::field_width_holds_max', clause='0 <= bits(max) <= 63, max < 2^bits(max), minimal', fn='try_bitpacking::bits'),
+               dict(name='proofs::field_width_of_negative_is_zero', clause='bits(max) == 0 for max < 0', fn='try_bitpacking::bits'),
+               dict(name='proofs::packed_key_accounting', clause='from any state with key < 2^width <= 2^63: either (key + (max << width), width + bits(max)) with width <= 63, or reset + None iff the key would exceed 63 bits; no arithmetic panic', fn='try_bitpacking[slice: field accounting]'),
+               dict(name='proofs::vx_canary', expect_fail=True)],
+    assumptions=['Planner stand-in: reset() only counted'],
+    not_covered=['encoding_range (where min / max come from)', 'the choice of subtract_offset and the fuse / unfuse of NULLs around the packed field', 'BitPack / BitUnpack operators (shift and mask application)'])
+
 UNITS['U24k'] = dict(
     kind='kani', crate='kani/U24', timeout_s=600, mem_gb=12, jobs=2,
     title='BOUNDED (names <= 2 ASCII characters): storage.rs sanitize_table_name - cleaning steps after lower-casing (slice) and the verbatim-or-digest decision (expression slice)',
